@@ -70,7 +70,7 @@ def run(ctx):
 
     # ---- C20.1 Server::drop
     d0 = method(facts, T_DROP, SERVER, "drop")
-    f = inline.inlined(facts, d0.id, stop=lambda d: d.startswith("connection::") or d.startswith("<connection::"), extern_ok=Q.std_small)
+    f = inline.inlined(facts, d0.id, extern_ok=Q.std_small)
     ctx.touch(f)
     where = "%s:%d" % (f.file, f.line)
     stores = [bb for bb, t in f.calls() if call_matches(t, r"atomic::Atomic(::<bool>|Bool)::store$") and close_f in arg_origin_fields(f, t) and op_const(t["args"][1]) is True]
@@ -157,11 +157,14 @@ def run(ctx):
         own = {}
         for name, op in caps.items():
             own[name] = fl.local_ty(op_local(op)) if op_local(op) is not None else "?"
-        has_listener = any("connection::Listener" in t for t in own.values())
+        def holds_listener(ty):
+            ty = (ty or "").lstrip("&").replace("mut ", "")
+            return "connection::Listener" in ty or (ty in facts.adts and bool(shared.find_slot_paths(facts, ty, r"connection::Listener")))
+        has_listener = any(holds_listener(t) for t in own.values())
         pool_locals = [i for i, l in enumerate(a.locals) if l["ty"] == P.tp]
         pool_drops = [bb for bb, t in a.drops() if not t["pl"]["p"] and t["pl"]["l"] in pool_locals and not a.blocks[bb]["cleanup"]]
-        lst_drops = [bb for bb, t in a.drops() if ("connection::Listener" in t["ty"] or (t["pl"]["l"] == 1 and not t["pl"]["p"])) and not a.blocks[bb]["cleanup"]]
-        moved_out = [u for u in a.uses().get(1, []) if u[0] == "stmt" and u[4] == "move" and any("connection::Listener" in (e.get("ty") or "") for e in u[3]["rhs"].get("op", {}).get("pl", {"p": []})["p"] if isinstance(e, dict))]
+        lst_drops = [bb for bb, t in a.drops() if (holds_listener(t["ty"]) or (t["pl"]["l"] == 1 and not t["pl"]["p"])) and not a.blocks[bb]["cleanup"]]
+        moved_out = [u for u in a.uses().get(1, []) if u[0] == "stmt" and u[4] == "move" and any(holds_listener(e.get("ty")) for e in u[3]["rhs"].get("op", {}).get("pl", {"p": []})["p"] if isinstance(e, dict))]
         if not lst_drops and not moved_out:
             # a by-value closure environment that is never moved out of is destroyed by the caller's
             # drop glue of the closure (FnOnce::call_once shim) when the body returns
@@ -180,7 +183,25 @@ def run(ctx):
             o = g.origin(x)
             if o[0] == "agg" and o[1] == "std::net::Shutdown" and o[4] == "Both":
                 both.append((g, bb))
-    okb = bool(both) and all(g.id == d0.id or g.id.startswith(d0.id + "::") for g, bb in both)
+    own = shared.server_drop_own_sites(facts)
+    okb = bool(both) and all((g.id, bb) in own for g, bb in both)
+    # and what it shuts down is the connection it has just opened to itself: on the abstract paths of drop, for either kind of listener
+    n_sh = 0
+    for v in la["variants"]:
+        kind = v["name"]
+        st = symex.Sym(f)
+        payload = ADDR if kind != "IP" else IPADDR
+        st.write_key((1, "*", "." + addr_f), ("agg", LADDR, kind, {v["fields"][0]["name"] if v["fields"] else "0": payload}))
+        for p in absint.explore(f, 0, st, deep_events=True):
+            for e in p.calls():
+                if re.search(r"::shutdown$", e[2]) and len(e[3]) > 1:
+                    how = absint.deep(p.state, e[3][1])
+                    if how and how[0] == "agg" and how[2] == "Both":
+                        n_sh += 1
+                        recv = [absint.deep(p.state, e[3][0])] + ([e[8][0]] if len(e) > 8 and e[8] else []) + ([e[5][0]] if e[5] and e[5][0] is not None else [])
+                        if not any(x and x[0] == "call" and re.search(r"^std::net::TcpStream::connect|^std::os::unix::net::UnixStream::connect", x[1]) for r_ in recv for x in absint.walk_terms(r_)):
+                            okb = False
+    okb = okb and n_sh > 0
     ctx.ob("C20.3", "shutdown-both-sites", "the only full shutdown is the one on Server::drop's throw-away self-connection", okb, d0.file, str([g.id for g, bb in both]))
     for key, g in ((d0.id, f), ("accept-thread", a)):
         has_writer = any(re.search(r"SequentialWriter<|BufWriter<", l["ty"]) for l in g.locals)
